@@ -147,9 +147,13 @@ def run_for_property(prop: str) -> int:
                  and not os.path.exists(os.path.join(_seeded.SEEDED, n, "PENDING"))]     # PENDING: collected, not yet triaged
         with ProcessPoolExecutor(max_workers=16) as ex:
             for r in ex.map(_seeded.run_seed, [(n, False) for n in names]):
+                v = {"id": "seeded/" + r["name"], "kind": "fire", "rule": "", "props": [prop]}
+                if r["status"] == "patch-failed":
+                    # the change was recorded against the pinned tree; on a tree that differs where it applies it is skipped, like a variant
+                    res.append((v, {"status": "skipped", "why": "patch does not apply to the current tree"}, True, "skipped (patch does not apply to the current tree)"))
+                    continue
                 ok = r["status"] == "ran" and bool(r["fired"].get(prop))
                 msg = ("detected: " + r["fired"][prop][0][:120]) if ok else f"NOT DETECTED ({r['status']})"
-                v = {"id": "seeded/" + r["name"], "kind": "fire", "rule": "", "props": [prop]}
                 res.append((v, {"status": "ran" if r["status"] == "ran" else "error"}, ok, msg))
         rdir = os.path.join(os.path.dirname(HERE), "refactors")
         if os.path.isdir(rdir):
